@@ -90,6 +90,12 @@ def injections(world, ep, sa):
     bodies.append(('notify-auth-failed', t, b))
     t, b = F.chain([(F.NOTIFY, F.n_body(43))])
     bodies.append(('notify-temporary-failure', t, b))
+    # payloads of a type nobody knows, with and without the critical bit (RFC 7296 2.5 asks for a reply to the first -
+    # from an endpoint that has checked who is asking)
+    import struct as _st
+    bodies.append(('unknown-critical-payload', 200, _st.pack('>BBH', 0, 0x80, 8) + b'abcd'))
+    bodies.append(('unknown-payload', 200, _st.pack('>BBH', 0, 0, 8) + b'abcd'))
+    bodies.append(('vendor-then-unknown-critical', 43, _st.pack('>BBH', 201, 0, 8) + b'vend' + _st.pack('>BBH', 0, 0x80, 4)))
     # authentic messages the adversary has seen on the wire for this IKE_SA, addressed to ep
     authentic = [d for d in list(world.net) + list(world.sent_log)
                  if d.sender != ep.name and d.data[0:8] == spi_i and d.data[8:16] in (spi_r, b'\0' * 8)
